@@ -401,6 +401,11 @@ def _run(case: Dict[str, Any], sim: Sim, world: World) -> None:
             if got != pristine:
                 raise Violation(PROP, site, "answer_depends_on_history", cond,
                                 {"with_history": got, "pristine": pristine, "engine": c, "a": a["spec"], "b": b["spec"]})
+            sib = bool(fresh_engine(dict(c, wl1=not c["wl1"])).isomorphic(a["g"], b["g"]))
+            sim.probe("filter_on_off_pair")
+            if sib != got:
+                raise Violation(PROP, site, "filter_changes_verdict", "wl1_filter",
+                                {"wl1_%s" % c["wl1"]: got, "wl1_%s" % (not c["wl1"]): sib, "engine": c, "a": a["spec"], "b": b["spec"]})
             if got not in (r1, r2):
                 raise Violation(PROP, site, "verdict_wrong", "wl1_filter=%s" % c["wl1"],
                                 {"got": got, "reference": [r1, r2], "engine": c, "a": a["spec"], "b": b["spec"]})
@@ -428,6 +433,14 @@ def _run(case: Dict[str, Any], sim: Sim, world: World) -> None:
                                 {"with_history": len(got), "pristine": len(pristine), "engine": c, "host": h["spec"], "pattern": p["spec"]})
             if not isinstance(got, list):
                 raise Violation(PROP, site, "embedding_invalid", "", {"type": repr(type(got))})
+            sibm = fresh_engine(dict(c, wl1=not c["wl1"])).get_mappings(h["g"], p["g"])
+            sim.probe("filter_on_off_pair")
+            same = (bool(sibm) == bool(got)) if c["max_mappings"] is not None else (
+                sorted(sorted(map(repr, m.items())) for m in sibm) == sorted(sorted(map(repr, m.items())) for m in got))
+            if not same:
+                raise Violation(PROP, site, "filter_changes_verdict", "wl1_filter",
+                                {"n_with_wl1_%s" % c["wl1"]: len(got), "n_with_wl1_%s" % (not c["wl1"]): len(sibm),
+                                 "engine": c, "host": h["spec"], "pattern": p["spec"]})
             for m in got:
                 if not gr.is_valid_map(rp, rh, dict(m), mode="mono", node_ok=_host_ge):
                     raise Violation(PROP, site, "embedding_invalid",
